@@ -12,7 +12,8 @@ from .seq import RawView, check_sorted_keys
 from .world import World
 
 KEYS = ['a', 'b', 'ab', {'b': '61'}, 1, {'f': '1.0'}, {'f': '2.5'}, 0, {'f': '-0.0'}, {'i': str(2 ** 63 - 1)},
-        {'i': str(2 ** 63)}, None, True, {'t': [1, 'x']}, {'pkl': [{'t': [1, 'x']}, 5]}, '', {'b': ''}, 'é ']
+        {'i': str(2 ** 63)}, None, True, {'t': [1, 'x']}, {'pkl': [{'t': [1, 'x']}, 5]}, '', {'b': ''}, 'é ',
+        'a\x00b', 'a\x00', {'b': '6100'}, 'k' * 3000, {'i': str(-2 ** 63)}, {'f': '1e300'}, -1]
 SMALL_VALUES = [0, 1, -7, {'f': '1.5'}, {'f': '-0.0'}, {'f': 'inf'}, 'v', 'text\r\nline', {'b': '0001ff'}, None, True,
                 {'t': [1, None, 'x']}, {'l': [1, 2, 3]}, {'d': [['k', 1]]}, {'i': str(2 ** 70)}, '']
 TAGS = [None, None, 't1', 't2', {'b': '7431'}, 3, 0, '']
@@ -92,7 +93,7 @@ def gen_prog(rng, n_ops, profile, mfs):
             if ttl is not None:
                 op['expire'] = ttl
         elif r < 0.62:
-            op = {'op': rng.choice(('incr', 'incr', 'decr')), 'k': k, 'delta': rng.choice((1, 2, -3, 10))}
+            op = {'op': rng.choice(('incr', 'incr', 'decr')), 'k': k, 'delta': rng.choice((1, 2, -3, 10, 1, 2, -3, 10, 0, 2 ** 62, -2 ** 62, 0.5))}
             if rng.random() < 0.25:
                 op['default'] = None
             elif rng.random() < 0.3:
